@@ -20,6 +20,7 @@ package environment
 //@   ghostvar rnAsked bool = false
 //@   ghostvar rnErr bool = false
 //@   ghostvar rnStored bool = false
+//@   ghostvar isStart bool = e.Event == "START_ACTIVITY"
 //@   on call (*Environment).handleHooksWithNegativeWeights : assert phase == 0 ; phase = 1
 //@   on aftercall (*Environment).handleHooksWithNegativeWeights : negErr = (result != nil)
 //@   on call (*fsm.Event).Cancel : cancelled = true
@@ -32,6 +33,8 @@ package environment
 //@   ensures negErr ==> cancelled && phase == 1
 //@   ensures rnErr ==> cancelled && phase == 1 && !rnStored
 //@   ensures rnAsked && !rnErr ==> rnStored
+//@   ensures isStart && !negErr ==> rnAsked
+//@   ensures rnAsked ==> isStart
 
 // leave_<state>: negative hooks -> end-of-run time when leaving RUNNING -> non-negative hooks -> the task transition.
 //@ closure newEnvironment "leave_state"
